@@ -35,7 +35,8 @@ def configs(tier):
     out = []
     for k in (1, 2, 3):
         out.append(dict(key=f"remove_pivot_segment,segments={k}", kind="rps", k=k, cost=5 ** k))
-    refs = [((1, 1), None), ((2, 1), None), ((1, 1, 1), [0, 2])] + ([((1, 1, 1), None)] if tier == "thorough" else [])
+    refs = [((1, 1), None), ((2, 1), None), ((1, 1, 1), [0, 2])]
+    out.append(dict(key="sampler,ref=(1, 0),gt=None,float_pivot", kind="sampler", sizes=[1, 0], gt=None, pivot="float_pivot", draws=9, cost=300))     # an annotator without units + ([((1, 1, 1), None)] if tier == "thorough" else [])
     if tier == "thorough":
         refs += [((2, 2), None), ((2, 1, 1), None), ((2, 1, 1), [0, 1]), ((2, 2, 1), [1, 2])]
     out.append(dict(key="sampler,re-initialised,ref=(1, 1, 1),gt=[0, 2],float_pivot", kind="sampler", sizes=[1, 1, 1], gt=[0, 2], pivot="float_pivot", reinit=True, cost=500))
@@ -104,7 +105,7 @@ def harness(cfg, ns):
             # integer pivots make the queries mixed integer/real: coordinates are bounded (stated bound)
             for x in inputs:
                 ctx.solver.add(x.e >= -COORD_BOUND, x.e <= COORD_BOUND)
-        rng = stubs.RNG(ctx, max_draws=24)
+        rng = stubs.RNG(ctx, max_draws=cfg.get("draws", 24))     # the retry-while-empty loop is cut by the draw budget
         # a zero-weight element is a zero-length segment, from which no uniform draw exists: the path dies there
         rng.assume_nonzero_weight = False
         orig_uniform = rng.uniform
